@@ -19,3 +19,41 @@ async def awork(x, *, dur, log):
     finally:
         log.append((t0, time.monotonic_ns()))
     return (x, os.getpid(), t0, None)
+
+
+# ---- order mode (C01 / C05): plain values, failures by table ----
+
+class StageErr(Exception):
+    def __init__(self, code):
+        super().__init__(code)
+        self.code = code
+
+
+class PreErr(Exception):
+    def __init__(self, code):
+        super().__init__(code)
+        self.code = code
+
+
+class SrcErr(Exception):
+    def __init__(self, code):
+        super().__init__(code)
+        self.code = code
+
+
+def _dur(xx, scale):
+    return ((xx * 7919) % 5) * scale / 1000.0      # scrambles the completion order
+
+
+def f(xx, *, fail, off, scale):
+    time.sleep(_dur(xx, scale))
+    if (xx - off) in fail:
+        raise StageErr(fail[xx - off])
+    return 3 * xx + 1
+
+
+async def af(xx, *, fail, off, scale):
+    await asyncio.sleep(_dur(xx, scale))
+    if (xx - off) in fail:
+        raise StageErr(fail[xx - off])
+    return 3 * xx + 1
